@@ -327,6 +327,9 @@ func init() {
 					alphabet = append(alphabet, ev(r))
 				}
 				for _, d := range []int{0, 1} {
+					if d == 1 && !thorough && kind == "message" && sh.name != "operation" {
+						continue // messages take the same path as signals up to the matching rule
+					}
 					n := maxEv
 					if d == 1 {
 						n = 3
